@@ -491,8 +491,10 @@ class Ctx:
             return
         axioms = [a.strip() for a in m.group(1).split("\n") if a.strip() and a.strip() != "<none>"]
         unsafe = [g.strip() for g in m.groups()[1:] if g.strip() != "<none>"]
-        short = {x.split(".")[-1] for x in allowed}
-        extra_ax = [a for a in axioms if a.split(".")[-1] not in short]
+        # coqchk lists the axioms of every LOADED library (not only those the theorems use, which
+        # Print Assumptions already restricts to the per-property allow-list): standard-library
+        # axioms are reported, anything declared outside Coq.* fails.
+        extra_ax = [a for a in axioms if not a.startswith("Coq.")]
         self.extra["coqchk"] = {"axioms": axioms, "wall_s": round(time.time() - t, 1)}
         self.obligation("coqchk -o PV.Props.%s (independent checker; axioms: %s)" % (self.pid, ", ".join(axioms) or "none"),
                         not extra_ax and not unsafe, extra_ax + unsafe)
